@@ -25,6 +25,47 @@ type stressCfg struct {
 	SubsPer    int `json:"subscribers_per_churner"`
 	NSelf      int `json:"self_unregistering_subscribers"`
 	Yield      int `json:"yield_style"`
+
+	// slow consumers next to the healthy subscribers (see stuckPlan); zero in most rounds
+	Stuck      int  `json:"stuck_channel_subscribers,omitempty"`
+	StuckCap   int  `json:"stuck_channel_capacity,omitempty"`
+	StuckExtra int  `json:"messages_beyond_stuck_capacity,omitempty"`
+	LateDrain  bool `json:"stuck_consumer_drains_late,omitempty"`
+}
+
+// stuckSender is the sender only the slow consumers filter on (next to the unfiltered healthy
+// subscribers of the type): it bounds the dispatches that can meet a full channel to the few
+// "special" messages of a round.
+const stuckSender = "peerS"
+
+// stuckChildBase: stress children with an index from here on run only rounds with stuck consumers.
+const stuckChildBase = 100
+
+// stuckPlan decides whether a round has slow consumers: channel subscribers of the first type with
+// a small channel, registered for the whole round. LateDrain: a consumer goroutine empties the
+// channel whenever it finds it full (slow, drains late); otherwise nobody reads the channel before
+// the round is over (stuck). An implementation may wait for room in a full channel (the pinned one
+// has a 3 s timeout it never reaches), so the never-drained rounds are few - in the quick tier two
+// rounds in each of four processes of their own, one message beyond the capacity - and are skipped
+// after a child's first violation; a late-draining consumer makes nobody wait for long.
+func stuckPlan(cfg *stressCfg, seed int64, child, round int, quick bool) {
+	rng := rand.New(rand.NewSource(mix(seed, child*100003+round, 717)))
+	never := child >= stuckChildBase || (!quick && round%100 == 37)
+	switch {
+	case never:
+		cfg.Stuck, cfg.StuckCap, cfg.StuckExtra = 1+rng.Intn(2), 1+rng.Intn(2), 1
+		if !quick {
+			cfg.StuckExtra = 1 + rng.Intn(2)
+		}
+	case round%8 == 5:
+		cfg.Stuck, cfg.StuckCap, cfg.StuckExtra, cfg.LateDrain = 1+rng.Intn(2), 1+rng.Intn(3), 2+rng.Intn(6), true
+	default:
+		return
+	}
+	// the healthy neighbours need at least one dispatcher goroutine
+	if cfg.NDisp < 1 {
+		cfg.NDisp = 1
+	}
 }
 
 func stressConfig(seed int64, child, round int) stressCfg {
@@ -67,6 +108,8 @@ type stressMsg struct {
 	bc    string
 	from  string
 	logid string
+
+	special bool // sent by stuckSender: matches the slow consumers of the round
 }
 
 func yield(rng *rand.Rand, style int) {
@@ -207,6 +250,22 @@ func runStressRound(res *childResult, seed int64, child, round int, cfg stressCf
 		s := mkSub(types[rng.Intn(len(types))], true, rng)
 		doReg(s, &mainOps)
 	}
+	// slow consumers and one healthy, unfiltered neighbour of their type (own generator: the rest of
+	// the round is built exactly as without them)
+	srng := rand.New(rand.NewSource(mix(seed, child*100003+round, 811)))
+	var stuckSubs []*recSub
+	if cfg.Stuck > 0 {
+		h := newRecSub(nc, rc, subCfg{ID: len(subs), typ: types[0], Style: "handler"}, nil, nil)
+		subs = append(subs, h)
+		doReg(h, &mainOps)
+		for i := 0; i < cfg.Stuck; i++ {
+			x := newRecSub(nc, rc, subCfg{ID: len(subs), typ: types[0], BC: pickW(srng, []string{"", "xuper"}, []int{70, 30}), From: stuckSender,
+				Style: "channel-stuck", Cap: cfg.StuckCap}, nil, nil)
+			subs = append(subs, x)
+			stuckSubs = append(stuckSubs, x)
+			doReg(x, &mainOps)
+		}
+	}
 	// churners' subscribers
 	churnSubs := make([][]*recSub, cfg.NChurn)
 	for g := 0; g < cfg.NChurn; g++ {
@@ -228,6 +287,24 @@ func runStressRound(res *childResult, seed int64, child, round int, cfg stressCf
 			m.msg = buildMsg(m.typ, m.bc, m.from, m.logid, rng.Intn(2), rng.Intn(3) == 0)
 			msgs = append(msgs, m)
 			plans[g] = append(plans[g], dispRec{Msg: len(msgs) - 1, Kind: pickW(rng, []string{"plain", "repeat", "dup2"}, []int{80, 12, 8})})
+		}
+	}
+	// the special messages: the first StuckCap of them (in whatever order the schedule gives) find
+	// room in a stuck consumer's channel, the others meet a full one
+	if cfg.Stuck > 0 {
+		for k := 0; k < cfg.StuckCap+cfg.StuckExtra; k++ {
+			m := &stressMsg{typ: types[0], bc: "xuper", from: stuckSender, logid: fmt.Sprintf("r%d-special-m%d-%d", round, k, srng.Int31()), special: true}
+			m.msg = buildMsg(m.typ, m.bc, m.from, m.logid, srng.Intn(2), srng.Intn(3) == 0)
+			msgs = append(msgs, m)
+			kind := "repeat"
+			if cfg.LateDrain {
+				kind = pickW(srng, []string{"repeat", "plain", "dup2"}, []int{60, 25, 15})
+			}
+			g := srng.Intn(cfg.NDisp)
+			at := srng.Intn(len(plans[g]) + 1)
+			plans[g] = append(plans[g], dispRec{})
+			copy(plans[g][at+1:], plans[g][at:])
+			plans[g][at] = dispRec{Msg: len(msgs) - 1, Kind: kind}
 		}
 	}
 	byLogid := map[string]int{}
@@ -309,8 +386,38 @@ func runStressRound(res *childResult, seed int64, child, round int, cfg stressCf
 			}
 		}(g)
 	}
+	// a slow consumer: whenever it finds its channel full it takes what is there (late drain)
+	stopDrain := make(chan struct{})
+	var dwg sync.WaitGroup
+	lateTaken := make([][]*pb.XuperMessage, len(stuckSubs))
+	if cfg.LateDrain {
+		for k, x := range stuckSubs {
+			dwg.Add(1)
+			go func(k int, x *recSub) {
+				defer dwg.Done()
+				r := rand.New(rand.NewSource(mix(seed, child*100003+round, int64(980+k))))
+				<-start
+				for {
+					select {
+					case <-stopDrain:
+						return
+					default:
+					}
+					if len(x.ch) == cap(x.ch) {
+						for n := r.Intn(4); n > 0; n-- {
+							runtime.Gosched()
+						}
+						lateTaken[k] = append(lateTaken[k], x.takeStuck()...)
+					}
+					yield(r, 3)
+				}
+			}(k, x)
+		}
+	}
 	close(start)
 	wg.Wait()
+	close(stopDrain)
+	dwg.Wait()
 	close(panics)
 	res.count("stress.rounds", 1)
 	res.count("stress.goroutines", cfg.NDisp+cfg.NChurn)
@@ -359,6 +466,7 @@ func runStressRound(res *childResult, seed int64, child, round int, cfg stressCf
 	// deliveries per (message, subscriber)
 	type dkey struct{ msg, sub int }
 	delivs := map[dkey][]int64{}
+	delivAt := map[dkey][]time.Duration{} // parallel to delivs; read by a guard only
 	for i, s := range subs {
 		s.drain(rc)
 		for _, dl := range s.take() {
@@ -368,7 +476,42 @@ func runStressRound(res *childResult, seed int64, child, round int, cfg stressCf
 				return
 			}
 			delivs[dkey{mi, i}] = append(delivs[dkey{mi, i}], dl.seq)
+			delivAt[dkey{mi, i}] = append(delivAt[dkey{mi, i}], dl.at.Sub(roundStart))
 			res.count("stress.deliveries", 1)
+		}
+	}
+	// what the slow consumers took (during the round when they drain late, now otherwise). Their own
+	// copies are not judged for completeness (a full channel may drop); a message they did not get
+	// met a full channel at its first dispatch.
+	stuckGot := map[dkey]int{}
+	metFull := map[int]bool{}
+	if cfg.Stuck > 0 {
+		if cfg.LateDrain {
+			res.count("nb.conc.rounds.late_drain", 1)
+		} else {
+			res.count("nb.conc.rounds.never_drained", 1)
+		}
+		for k, x := range stuckSubs {
+			for _, m := range append(lateTaken[k], x.takeStuck()...) {
+				mi, ok := byLogid[m.GetHeader().GetLogid()]
+				if !ok || !proto.Equal(m, msgs[mi].msg) {
+					res.violation("dispatch|conc|handed-message-differs", "a subscriber was handed a message that was never dispatched", wit(map[string]interface{}{"subscriber": x.subCfg}))
+					return
+				}
+				stuckGot[dkey{mi, x.ID}]++
+				res.count("nb.conc.slow_consumer.took", 1)
+			}
+		}
+		for mi, m := range msgs {
+			if !m.special {
+				continue
+			}
+			for _, x := range stuckSubs {
+				if stuckGot[dkey{mi, x.ID}] == 0 {
+					metFull[mi] = true
+					res.count("nb.conc.slow_consumer.copy_lost_not_judged", 1)
+				}
+			}
 		}
 	}
 	overlapsChurn := func(call, ret int64) (any bool, newType bool) {
@@ -424,9 +567,30 @@ func runStressRound(res *childResult, seed int64, child, round int, cfg stressCf
 					}
 				}
 			}
+			if m.special {
+				res.count("nb.conc.special_dispatches", len(p.Att))
+			}
 			for i, s := range subs {
 				seqs := delivs[dkey{p.Msg, i}]
 				n := len(seqs)
+				if s.Style == "channel-stuck" {
+					// a slow consumer: never a message that does not match, never more copies than dispatches
+					// that could legitimately hand one over; a lost copy is not judged
+					n = stuckGot[dkey{p.Msg, i}]
+					allowed := 1
+					if p.Kind == "dup2" {
+						allowed = 2
+					}
+					switch {
+					case !s.matches(m.typ, m.bc, m.from) && n > 0:
+						fail("dispatch|conc|delivered-to-non-matching-subscriber|slow-consumer", "non-matching slow consumer reached", s, n)
+						return
+					case n > allowed:
+						fail("dispatch|conc|double-delivery|slow-consumer", "a slow consumer was handed more copies than one dispatch may hand over", s, n)
+						return
+					}
+					continue
+				}
 				if !s.matches(m.typ, m.bc, m.from) {
 					if n > 0 {
 						which := "sender"
@@ -459,6 +623,12 @@ func runStressRound(res *childResult, seed int64, child, round int, cfg stressCf
 					switch stateOver(ivs[i], a.Call, a.Ret) {
 					case stIn:
 						res.count("stress.exactly_once.checked", 1)
+						if m.special {
+							res.count("nb.conc.healthy_exactly_once.checked", 1)
+							if metFull[p.Msg] {
+								res.count("nb.conc.healthy_exactly_once.next_to_full_channel", 1)
+							}
+						}
 						if n1 == 0 {
 							fail("dispatch|conc|missing-delivery|subscriber-registered-throughout", "registered for the whole dispatch but not reached", s, n1)
 							return
@@ -484,6 +654,33 @@ func runStressRound(res *childResult, seed int64, child, round int, cfg stressCf
 						b := p.Att[1]
 						gap := b.T1 - a.T0
 						switch {
+						case m.special && n1 > 0 && n2 > 0:
+							// A subscriber that got the message from the first dispatch is handed the sequential repeat
+							// too. The first dispatch may have waited for a slow neighbour, so the guard is not the
+							// span of both calls: the judgement is skipped only when the repeat was handed over more
+							// than 1 s after the first dispatch RETURNED (the window of the code under test is 3 s).
+							var at time.Duration
+							for k, q := range seqs {
+								if q >= b.Call {
+									at = delivAt[dkey{p.Msg, i}][k]
+									break
+								}
+							}
+							if at-a.T1 > repeatGuard {
+								res.count("nb.conc.repeat.skipped_gap_over_1s", 1)
+								break
+							}
+							pre := "neighbour-subscriber-slow-but-had-room"
+							if metFull[p.Msg] {
+								pre = "neighbour-subscriber-blocked"
+							}
+							fail("dispatch|conc|repeat-delivered-again|"+pre, fmt.Sprintf("sequential repeat, handed over %v after the first dispatch returned, reached a subscriber that had already got the message", at-a.T1), s, n2)
+							return
+						case m.special && n1 > 0 && stateOver(ivs[i], a.Call, b.Ret) == stIn:
+							res.count("nb.conc.repeat.checked", 1)
+							if metFull[p.Msg] {
+								res.count("nb.conc.repeat_after_blocked_neighbour.checked", 1)
+							}
 						case gap > 2*time.Second:
 							res.count("stress.repeat.gap_over_2s_skipped", 1)
 						case firstReached > 0:
@@ -524,8 +721,12 @@ func runStressRound(res *childResult, seed int64, child, round int, cfg stressCf
 			}
 		}
 	}
-	res.Cases = append(res.Cases, caseRec{fmt.Sprintf("stress|D%d C%d P%d T%d M%d I%d S%d U%d Y%d", cfg.NDisp, cfg.NChurn, cfg.NPerm, cfg.NTypes,
-		cfg.MsgsPer, cfg.ChurnIters, cfg.SubsPer, cfg.NSelf, cfg.Yield), overl > 0})
+	shape := fmt.Sprintf("stress|D%d C%d P%d T%d M%d I%d S%d U%d Y%d", cfg.NDisp, cfg.NChurn, cfg.NPerm, cfg.NTypes,
+		cfg.MsgsPer, cfg.ChurnIters, cfg.SubsPer, cfg.NSelf, cfg.Yield)
+	if cfg.Stuck > 0 {
+		shape += fmt.Sprintf(" X%d cap%d +%d late=%v", cfg.Stuck, cfg.StuckCap, cfg.StuckExtra, cfg.LateDrain)
+	}
+	res.Cases = append(res.Cases, caseRec{shape, overl > 0})
 	if round%17 == 3 {
 		res.sample(map[string]interface{}{"part": "dispatcher-concurrent", "config": cfg, "dispatches_overlapping_a_registration_change": overl,
 			"ops": len(allOps), "messages": len(msgs), "first_dispatches": firstN(plans, 3)})
